@@ -669,7 +669,8 @@ func (req *Request) buildDistributedRequestData(subBackends []string) (requestDa
 	}
 
 	// Get hash with metadata in addition to table rows
-	requestData["outputformat"] = OutputFormatWrappedJSON
+	outputFormat := OutputFormatWrappedJSON
+	requestData["outputformat"] = outputFormat.String()
 
 	return requestData
 }
